@@ -938,7 +938,6 @@ func (c *Ctx) ruleFreeListShrink(id string) {
 	}
 }
 
-
 // fanOut finds the fan-out function: it looks sessions up in the registry inside a loop and reaches the arming functions
 // (directly or through per-QoS helpers), and is not itself arming.
 func (c *Ctx) fanOut(o *outbound) *ssa.Function {
@@ -987,7 +986,6 @@ func (c *Ctx) deliveryPackets(o *outbound, fan *ssa.Function) []*builtObj {
 	}
 	return out
 }
-
 
 // armIdx: the index, among the call's arguments, of the packet handed to an arming function (-1 if cl is not an arming call).
 func armIdx(c *Ctx, o *outbound, cl *core.Call) int {
